@@ -59,6 +59,10 @@ def gen_header(rng):
     h.uuid = UUID(bytes_le=guid)
     sysid = c08.rand_text(rng, rng.choice([0, 1, 5, 31, 32, 32, rng.randrange(33)]), c08.PRINTABLE + ":")
     soft = c08.rand_text(rng, rng.choice([0, 1, 31, 32, 32, rng.randrange(33)]), c08.PRINTABLE + ":")
+    if rng.random() < 0.2:
+        # fixed-width text ending in blanks (and blanks only): kept as given
+        sysid = rng.choice(["trailing blank ", "two blanks  ", " ", "x" * 31 + " "])
+        soft = rng.choice(["laspy copy ", "  ", "y" * 30 + "  "])
     h.system_identifier = sysid
     h.generating_software = soft
     d = rand_date(rng)
